@@ -10,7 +10,7 @@ What is matched WHOLE (every statement) and what is extracted
     module level                      the imports, exactly two classes, no other code
     SeismicZfpBackendArray            base class BackendArray, exactly the methods __init__, __getitem__, _raw_indexing_method
       __init__                        verbatim (shape, dtype, sgz_reader stored as given), optionally followed by
-                                      self.lock = threading.Lock() (the D45 repair; then the reader call must be under
+                                      self.lock = threading.Lock() (the D51 repair; then the reader call must be under
                                       `with self.lock:` and `import threading` present -- all three or none: flag xa_locked)
       __getitem__                     verbatim: indexing.explicit_indexing_adapter(key, self.shape, <support>, self._raw_indexing_method);
                                       extracted: the IndexingSupport member
@@ -87,7 +87,7 @@ RAW_TAIL_PLAIN = '''    (min_il, max_il), (min_xl, max_xl), (min_z, max_z) = bou
                                           min_xl=H_a2, max_xl=H_a3,
                                           min_z=H_a4, max_z=H_a5)[tuple(post)]
 '''
-# the D45 repair: the reader is called under the array's lock (dask loads chunks from several threads)
+# the D51 repair: the reader is called under the array's lock (dask loads chunks from several threads)
 RAW_TAIL_LOCK = '''    (min_il, max_il), (min_xl, max_xl), (min_z, max_z) = bounds
     with self.lock:
         volume = self.sgz_reader.read_subvolume(min_il=H_a0, max_il=H_a1,
@@ -198,7 +198,7 @@ def generate(srcdir):
         raise GenFail('SeismicZfpBackendEntrypoint.open_dataset: not exactly one undecorated definition')
 
     A = 'SeismicZfpBackendArray.'
-    # either the plain form, or the D45 repair in all three places (import threading; self.lock = threading.Lock(); the
+    # either the plain form, or the D51 repair in all three places (import threading; self.lock = threading.Lock(); the
     # reader called under `with self.lock:`) -- never a mixture
     try:
         match_function(xa, A + '__init__', T_INIT_LOCK)
@@ -258,7 +258,7 @@ def generate(srcdir):
     emit(_defn('xa_multithreading', [], 'bool', 'true' if dfl[1].value else 'false'))
     emit(_defn('xa_locked', [], 'bool', 'true' if locked else 'false',
                'true: __init__ creates self.lock = threading.Lock() and the read_subvolume call above is made under `with self.lock:`\n'
-               '   (the D45 repair: with open_dataset(..., chunks=...) dask calls this method from several threads at once);\n'
+               '   (the D51 repair: with open_dataset(..., chunks=...) dask calls this method from several threads at once);\n'
                '   false: no lock.  The sequential meaning of the method is the same either way'))
 
     # ------------------------------------------------------------------ __getitem__ / open_dataset
